@@ -62,7 +62,7 @@ def walkEv (ss : Scripts) : Nat → LEv → List String → List LEv → List St
       let (o, _) := walkEvs ss fuel e.sub [] closure chain []
       (o, held)
     else if e.kind == "call" then
-      let guards' := if e.a == "safelyRead" || e.a == "safelyWrite" || e.a == "safelyGlobal" then (e.a ++ "@" ++ e.b) :: guards else guards
+      let guards' := if e.a == "safelyRead" || e.a == "safelyWrite" || e.a == "safelyGlobal" || e.a == "safelyReadParent" then (e.a ++ "@" ++ e.b) :: guards else guards
       let os := (candidates ss e.a).map fun (full, evs) =>
         if chain.contains full then [] else (walkEvs ss fuel evs held e.sub (full :: chain) guards').1
       (os.flatten, held)
@@ -166,7 +166,8 @@ def refOf (recv : String) : String := if recv.endsWith ".file" then recv.dropRig
 * `RenameAt`, `Renamed` and Tremove's `UnlinkAt`: `safelyGlobal` – renameMu write-held;
 * read class: `safelyRead` on the receiver's reference – renameMu and the node's opMu read-held;
   `GetAttr` of Tgetattr likewise;
-* walks (`walkOne`): `safelyRead` on the reference walked from (a clone: on its parent, I2);
+* walks (`walkOne`): `safelyRead` on the reference walked from (a clone: `safelyReadParent`, which
+  looks the parent up under renameMu – I2; the D15 `fix:`);
 * exempt (I2 / class none): calls on a File not yet bound to a fid (Attach's and walkOne's `sf`),
   `StatFS`, `Lock`, `Close`. -/
 def guardsMeetContract : Bool :=
@@ -183,7 +184,7 @@ def guardsMeetContract : Bool :=
       o.guards.head? == some ("safelyWrite@" ++ refOf o.recv) && o.held.contains "opMu:W" && o.held.contains "renameMu:R"
     else if o.what == "Walk" || o.what == "WalkGetAttr" then
       (o.chain.head? == some "walkOne" &&
-        (o.guards.head? == some "safelyRead@walkRef" || o.guards.head? == some "safelyRead@ref.maybeParent()") &&
+        (o.guards.head? == some "safelyRead@walkRef" || o.guards.head? == some "safelyReadParent@ref") &&
         o.held.contains "opMu:R") ||
       (o.chain.contains "txattrwalk.handle" && o.guards.head? == some "safelyRead@ref" && o.held.contains "opMu:R")
     else if readClass.contains o.what || o.what == "GetAttr" then
